@@ -1079,6 +1079,14 @@ func (in *Interp) apply(x *ast.CallExpr, callee string, obj types.Object, recv V
 		case "new":
 			return one(st, Sym{Name: fmt.Sprintf("new@%d", x.Pos()), NotNil: true})
 		case "copy", "delete", "close", "print", "println":
+			// copy(dst[:len(src)], src) copies what copy(dst, src) copies
+			if b.Name() == "copy" && len(args) == 2 && args[0] != nil && args[1] != nil {
+				if d, ok := args[0].(Sym); ok {
+					if suffix := "[:len(" + args[1].Canon() + ")]"; strings.HasSuffix(d.Name, suffix) {
+						args = []Val{Sym{Name: strings.TrimSuffix(d.Name, suffix), NotNil: d.NotNil}, args[1]}
+					}
+				}
+			}
 			st.Emit(b.Name(), x.Pos(), args...)
 			return one(st, Sym{Name: b.Name()})
 		case "min", "max":
